@@ -70,6 +70,22 @@ def e_det(c):
     nscale = max(1.0, float(np.max(np.abs(wn))), float(np.max(np.abs(B.noise))))
     check(np.allclose(amplified, wn, rtol=1e-9, atol=1e-9 * nscale), "edfa-input-noise-not-amplified-by-sqrt(G)",
           f"G={G} dB n_pol={m.npol}: (A.noise-ASE) max {np.max(np.abs(amplified)):.3e}, expected sqrt(G)*in.noise max {np.max(np.abs(wn)):.3e}")
+    # exact ASE scale (conditional clause): IF the ASE realisation is proportional to the unit Gaussians that numpy's global generator
+    # yields under this seed (4 x N standard normals, rows = x-re, y-re, x-im, y-im), the constant of proportionality is sqrt(P_ase/4)
+    # exactly. The premise does not presuppose the implementation: when the draws are consumed differently the clause is skipped (counted).
+    exact = "ase-scale-skipped"
+    if G > 0.5 and N >= 8:
+        np.random.seed(c["seed"])
+        z = np.random.randn(4, N)
+        zc = z[:2] + 1j * z[2:]
+        num, den = np.vdot(zc, B.noise), np.vdot(zc, zc).real
+        k = num / den
+        if np.max(np.abs(B.noise - k * zc)) <= 1e-9 * abs(k) * np.max(np.abs(zc)):
+            f0 = C_LIGHT / (c["gv"].get("wavelength") or 1550e-9)
+            want_k = np.sqrt(10 ** (NF / 10) * H_PLANCK * f0 * (g - 1) * fs / 4)
+            check(abs(k.imag) <= 1e-9 * abs(k) and abs(k.real / want_k - 1) <= 1e-9, "ase-scale!=sqrt(NF*h*f0*(G-1)*fs/4)",
+                  f"G={G:.3f} dB NF={NF:.3f} dB fs={fs:.4g} f0={f0:.6g}: ASE = {k.real:.9e} * unit Gaussians, expected {want_k:.9e} (ratio {k.real / want_k:.9f})")
+            exact = "ase-scale-exact"
     # fresh ASE on every call
     if G > 0.5:
         A2 = lib(D.EDFA, x, G, NF)
@@ -90,7 +106,7 @@ def e_det(c):
         raises(TypeError, D.EDFA, bad, G, NF, tag="edfa-non-optical-accepted")
     nt = m.n is not None or m.npol == 1 or c["bw"] is not None
     return {"nontrivial": bool(nt), "classes": [f"pol{m.npol}", "noise" if m.n is not None else "clean", f"dt-{c['x']['sig']['dt']}", "bw" if c["bw"] else "no-bw",
-                                                 c["gv"]["form"], "wl" if c["gv"].get("wavelength") else "wl-default"]}
+                                                 c["gv"]["form"], "wl" if c["gv"].get("wavelength") else "wl-default", exact]}
 
 
 @st.composite
